@@ -35,6 +35,7 @@ a second run that recompiles the script *and* re-runs compile-time code is a
 violation (a second run that recompiles without observable compile-time effects
 is merely inconclusive).
 """
+import ast
 import json
 import os
 from collections import Counter
@@ -50,6 +51,9 @@ RULE = ("generated modules with eval-when-compile / eval-and-compile / do-mac fo
         "try/except/else/finally, if/when/cond, let, for/while, lfor/gfor both strategies, match, defclass, defn "
         "decorators/defaults/bodies); imported from source then from the byte-code cache, or (every 4th case) run "
         "twice as a script with `hy FILE`. "
+        "Values: literals of every kind incl. each falsy one (0, 0.0, 0j, \"\", b\"\", False, [], {}, #(), None) as do-mac results "
+        "(quoted and unquoted) and as last forms, used as assigned value / argument / keyword argument / `if` test / "
+        "function result / list element, compared as typed tokens in both processes. "
         "Three modules share one pair of child processes (each module is one evaluation). "
         "Non-trivial = >= 2 staging forms, at least one of them inside a function, byte-code path detected; "
         "distinct by module text.")
@@ -76,10 +80,54 @@ MARK = 0
 # ---------------------------------------------------------------------------
 # IR
 
+# Literals of every kind (Hy text, Python literal text), the falsy one of each kind included.
+LITS = [("None", "None"), ("0", "0"), ("7", "7"), ("42", "42"), ("0.0", "0.0"), ("2.5", "2.5"),
+        ('""', "''"), ('"s"', "'s'"), ("False", "False"), ("True", "True"), ('b""', "b''"),
+        ('b"x"', "b'x'"), ("[]", "[]"), ("[0]", "[0]"), ("{}", "{}"), ('{"a" 1}', "{'a': 1}"),
+        ("#()", "()"), ("#(1 2)", "(1, 2)"), ("0j", "0j"), ("-1", "-1")]
+FALSY = [l for l in LITS if not ast.literal_eval(l[1])]
+
+
+def n_lit(rng):
+    t, py = rng.choice(FALSY if rng.random() < 0.5 else LITS)
+    return {"k": "lit", "t": t, "py": py}
+
+
+def lit_value(n):
+    return ast.literal_eval(n["py"]) if "py" in n else n["v"]
+
+
+def tok(v):
+    """Typed token of a value; the children compute the same (TOK_SRC)."""
+    if isinstance(v, (bool, int, float, str, bytes, type(None), complex)):
+        return [type(v).__name__, repr(v)]
+    if isinstance(v, (list, tuple)):
+        return [type(v).__name__, [tok(x) for x in v]]
+    if isinstance(v, dict):
+        return ["dict", [[tok(k), tok(x)] for k, x in v.items()]]
+    if isinstance(v, (set, frozenset)):
+        return [type(v).__name__, sorted(repr(x) for x in v)]
+    return ["object", type(v).__name__]
+
+
+TOK_SRC = r"""
+def tok(v):
+    if isinstance(v, (bool, int, float, str, bytes, type(None), complex)):
+        return [type(v).__name__, repr(v)]
+    if isinstance(v, (list, tuple)):
+        return [type(v).__name__, [tok(x) for x in v]]
+    if isinstance(v, dict):
+        return ["dict", [[tok(k), tok(x)] for k, x in v.items()]]
+    if isinstance(v, (set, frozenset)):
+        return [type(v).__name__, sorted(repr(x) for x in v)]
+    return ["object", type(v).__name__]
+"""
+
+
 def n_log(ctr, rng):
     # ids of the j-th module of a batch start at j*1000 (far fewer than 1000 logging sites each)
     ctr[0] += 1
-    return {"k": "log", "id": ctr[0], "v": rng.choice([None, ctr[0] * 10, ctr[0] * 10 + 1])}
+    return {"k": "log", "id": ctr[0], "v": rng.choice([None, 0, ctr[0] * 10, ctr[0] * 10 + 1])}
 
 
 def gen_stage(rng, ctr, depth, kinds=("ewc", "eac", "dm")):
@@ -88,12 +136,14 @@ def gen_stage(rng, ctr, depth, kinds=("ewc", "eac", "dm")):
         return {"k": k, "body": [], "res": None} if k == "dm" else {"k": k, "body": []}
     body = gen_body(rng, ctr, depth + 1)
     if k != "dm":
+        if rng.random() < 0.3:
+            body.append(n_lit(rng))       # the value of eval-and-compile; ignored by eval-when-compile
         return {"k": k, "body": body}
     r = rng.random()
-    if r < 0.45:
+    if r < 0.35:
         res = n_log(ctr, rng)
-    elif r < 0.6:
-        res = {"k": "lit", "v": rng.choice([None, 7, 42])}
+    elif r < 0.62:
+        res = n_lit(rng)
     elif r < 0.75 or depth >= 2:
         res = {"k": "vec", "body": [n_log(ctr, rng), {"k": "lit", "v": 5}]}
     else:
@@ -186,7 +236,7 @@ def gen_body(rng, ctr, depth):
         if r < 0.55 or depth >= 3:
             out.append(n_log(ctr, rng))
         elif r < 0.63:
-            out.append({"k": "lit", "v": rng.randint(1, 9)})
+            out.append(n_lit(rng))
         elif r < 0.70:
             out.append({"k": "do", "body": gen_body(rng, ctr, depth + 1)})
         elif r < 0.80 and depth <= 1:
@@ -220,7 +270,9 @@ def gen_module(rng, tier, ctr=None):
         if what == "expr":
             nv += 1
             e = gen_expr(rng, ctr)
-            top.append({"k": "top", "var": f"r{nv}" if rng.random() < 0.7 else None, "node": e})
+            var = f"r{nv}" if rng.random() < 0.8 else None
+            use = rng.choice(["setv", "setv", "arg", "iftest", "kwarg"]) if var else "setv"
+            top.append({"k": "top", "var": var, "node": e, "use": use})
         else:
             name = f"f{len([t for t in top if t['k'] == 'defn']) + 1}"
             body = []
@@ -238,7 +290,7 @@ def render(n):
     if k == "log":
         return f"(STAGE {n['id']} {hv(n['v'])})"
     if k == "lit":
-        return hv(n["v"])
+        return n["t"] if "t" in n else hv(n["v"])
     if k == "do":
         return "(do " + " ".join(render(c) for c in n["body"]) + ")"
     if k == "vec":
@@ -260,6 +312,13 @@ def render(n):
         return render_host(n)
     if k == "top":
         r = render(n["node"])
+        use = n.get("use", "setv")
+        if use == "arg":
+            r = f"(IDENT {r})"
+        elif use == "kwarg":
+            r = f"(IDENT :x {r})"
+        elif use == "iftest":
+            r = f'(if {r} "T" "F")'
         return f"(setv {n['var']} {r})" if n["var"] else r
     if k == "defn":
         return f"(defn {n['name']} []\n  " + "\n  ".join(render(c) for c in n["body"]) + ")"
@@ -376,7 +435,7 @@ def comp(n, twice, funcs, env):
     if k == "log":
         return Counter(), (lambda: (Counter({n["id"]: 1}), n["v"]))
     if k == "lit":
-        return Counter(), (lambda: (Counter(), n["v"]))
+        return Counter(), (lambda: (Counter(), lit_value(n)))
     if k in ("do", "vec"):
         parts = [comp(c, twice, funcs, env) for c in n["body"]]
         cev = sum((p[0] for p in parts), Counter())
@@ -415,8 +474,10 @@ def comp(n, twice, funcs, env):
     if k == "top":
         c, p = comp(n["node"], twice, funcs, env)
 
-        def prog(p=p, var=n["var"]):
+        def prog(p=p, var=n["var"], use=n.get("use", "setv")):
             e, v = p()
+            if use == "iftest":
+                v = "T" if v else "F"
             if var:
                 env[var] = v
             return e, None
@@ -547,15 +608,19 @@ if _LOG:
             return False
     def IDENT(x):
         return x
+    TOKSRC
     def DUMPVALS(g):
-        vals = {k: v for k, v in g.items() if k[0] in "rc" and k[1:].isdigit()}
+        vals = {k: tok(v) for k, v in g.items() if k[0] in "rc" and k[1:].isdigit()}
         with open(os.environ["VERIF_STAGE_VALS"], "a") as f:
             f.write(json.dumps({"phase": _PHASE, "values": vals}, default=repr) + "\n")
     builtins.STAGE, builtins.CM, builtins.IDENT, builtins.DUMPVALS = STAGE, CM, IDENT, DUMPVALS
 """
 
+HARNESS = HARNESS.replace("    TOKSRC\n", "".join("    " + ln + "\n" for ln in TOK_SRC.strip().split("\n")))
+
 DRIVER = r"""
 import json, os, sys
+""" + TOK_SRC + r"""
 sys.path.insert(0, sys.argv[1])
 outs = {}
 import importlib
@@ -563,7 +628,7 @@ import hy
 for name in sys.argv[2:]:
     try:
         m = importlib.import_module(name)
-        out = {"ok": True, "values": {k: v for k, v in vars(m).items()
+        out = {"ok": True, "values": {k: tok(v) for k, v in vars(m).items()
                                       if k[0] in "rc" and k[1:].isdigit()}}
         json.dumps(out)
     except BaseException as e:
@@ -684,8 +749,9 @@ def judge(mod, path, events, dumps, comp, file_mode=False):
         for var, want in env_hi.items():
             if var not in got:
                 return False, f"process {k + 1}: {var} not set; expected {want!r}\n{text}", tag
-            if got[var] != want or type(got[var]) is not type(want):
-                return False, f"process {k + 1}: {var} = {got[var]!r}, expected {want!r}\n{text}", tag
+            if got[var] != tok(want):
+                return False, (f"process {k + 1} ({'source' if k == 0 else 'cached'}): {var} = {got[var]!r}, "
+                               f"expected {tok(want)!r}\n{text}"), tag
     return True, None, tag
 
 
